@@ -31,10 +31,27 @@ ZERO7 = (0, 0, 0, 0, 0, 0, 0)
 
 def _variations(tier):
     """n3lo_ad_variation tuples exercised (gg, gq, qg, qq, nsp, nsm, nsv)"""
+    # FHMRUVV: SEP is a separating family: every pair of the 7 slots takes different values in one of the tuples (base-3 digits
+    # of the slot index, and the same shifted by one so that every slot is non-central somewhere)
     if tier == "quick":
-        return {True: [ZERO7, (1, 2, 1, 2, 2, 2, 1)], False: [ZERO7, (3, 2, 5, 1, 0, 0, 0)]}
-    return {True: [ZERO7, (1, 1, 1, 1, 1, 1, 1), (2, 2, 2, 2, 2, 2, 2), (1, 2, 0, 1, 1, 0, 2)],
+        return {True: [ZERO7, SEP[0], SEP[1]], False: [ZERO7, (3, 2, 5, 1, 0, 0, 0)]}
+    return {True: [ZERO7, (1, 1, 1, 1, 1, 1, 1), (2, 2, 2, 2, 2, 2, 2)] + SEP,
             False: [ZERO7, (19, 15, 15, 6, 0, 0, 0), (7, 3, 11, 2, 0, 0, 0), (1, 0, 0, 0, 0, 0, 0)]}
+
+
+SEP = [(0, 1, 2, 0, 1, 2, 0), (0, 0, 0, 1, 1, 1, 2), (1, 2, 0, 1, 2, 0, 1), (1, 1, 1, 2, 2, 2, 0)]
+SLOTS = ("gg", "gq", "qg", "qq", "nsp", "nsm", "nsv")
+
+
+def _beh(v, fh):
+    """behaviour class of a variation index: FHMRUVV distinguishes 1, 2 and everything else (central)"""
+    return v if (not fh or v in (1, 2)) else 0
+
+
+def _key(base, variation, fh):
+    """violations that need differing slot values get their own key"""
+    b = [_beh(v, fh) for v in variation]
+    return base if len(set(b)) == 1 else base + ":variation-slot"
 
 
 def _z(x):
@@ -52,6 +69,7 @@ def case_grid(log, nf, order, fh, variation):
     rkw = {"nf": nf, "order": list(order), "fh": fh, "variation": list(variation)}
 
     def dec(expr, what, key):
+        key = _key(key, variation, fh) if order[0] >= 4 else key
         v = prove_zero(_z(expr), "%s [%s]" % (what, tag))
         E.decide(log, v, key, replay=(MOD, "replay_grid", dict(rkw, what=key)), sampler=_sampler)
 
@@ -72,7 +90,6 @@ def case_grid(log, nf, order, fh, variation):
         for k in range(1, order[0] + 1):
             for (i, j), (a, b) in emb.items():
                 dec(gs[k, 0][i, j] - s[k - 1][a, b], "singlet_qed[%d,0][%d,%d] == gamma_singlet[%d][%d,%d]" % (k, i, j, k - 1, a, b), "singlet_qed:block")
-            assert (not fh) or order[0] < 4 or variation[3] == variation[4], "claim restricted to FHMRUVV variation tuples with qq slot == nsp slot"
             dec(gs[k, 0][3, 3] - nsp[k - 1], "singlet_qed[%d,0][3,3] (Sdelta) == gamma_ns+[%d]" % (k, k - 1), "singlet_qed:sdelta")
             rest = SR(QZERO)
             for i in range(4):
@@ -126,6 +143,145 @@ def case_grid(log, nf, order, fh, variation):
     _r, pm = explore(run)
     log.path_stats(pm)
     _validate(log, nf, order, fh, variation)
+
+
+# ---------------------------------------------------------------------------
+# the variation tuple as part of the decided input space
+# ---------------------------------------------------------------------------
+NUMERIC_N = [complex(3.3, 0.7), complex(1.75, -6.5)]
+
+
+def _slot_tuple(zs):
+    """a concrete tuple on the current path (model of the path condition) for replay and for the key"""
+    import z3
+    from symx import solver as S_
+
+    sol = z3.Solver()
+    sol.set("timeout", 20000)
+    for c_ in S_.context_constraints():
+        sol.add(c_)
+    if str(sol.check()) != "sat":
+        return None
+    m = sol.model()
+    out = []
+    for z in zs:
+        if isinstance(z, int):
+            out.append(z)
+        else:
+            out.append(m.eval(z.e, model_completion=True).as_long())
+    return tuple(out)
+
+
+def case_slots(log, nf, fh, spec, numeric, blocks=("singlet", "valence", "ns_plus", "ns_minus")):
+    """n3lo_ad_variation = 7 symbolic integers (spec[i] == "sym") or fixed values; the code's comparisons `variation == k` fork the path,
+    so one explore covers every behaviour class of every slot that a block reads.  numeric: N at concrete complex points (float code);
+    otherwise N a real symbol (psi atoms)."""
+    import z3
+    from symx.solver import ZInt, assume_z3
+
+    ad = E.mod(AD)
+    log.encode(ad.gamma_singlet_qed, ad.gamma_valence_qed, ad.gamma_ns_qed, ad.gamma_singlet, ad.gamma_ns,
+               ad.as4.gamma_singlet_qed, ad.as4.gamma_valence_qed, ad.as4.fhmruvv.gamma_singlet_qed, ad.as4.fhmruvv.gamma_valence_qed)
+    order = (4, 1)
+    tag0 = "nf=%d %s slots=%s N %s" % (nf, "fhmruvv" if fh else "as4", ",".join(SLOTS[i] if x == "sym" else "%s=%d" % (SLOTS[i], x) for i, x in enumerate(spec)),
+                                       "in %r" % (NUMERIC_N,) if numeric else "symbolic")
+
+    def setup():
+        E.unpatch()
+        stub = None
+        if numeric:
+            Ns = list(NUMERIC_N)
+        else:
+            E.patch()
+            stub = E.install_psi()
+            N = SR.var("N")
+            assume(N - 2, ">=0")
+            Ns = [N]
+        zs = []
+        for i, x in enumerate(spec):
+            if x == "sym":
+                z = ZInt("v_" + SLOTS[i])
+                assume_z3(z.e >= 0)
+                zs.append(z)
+            else:
+                zs.append(int(x))
+        return Ns, tuple(zs), stub
+
+    def sq(e):
+        e = Cx.lift(_z(e))
+        return e.re * e.re + e.im * e.im
+
+    def finish(zs, items, stub):
+        t = _slot_tuple(zs)
+        if t is None:
+            log.inconclusive.append("no model for the path condition of the variation slots")
+            return
+        for base, what, expr in items:
+            key = _key(base, t, fh)
+            v = prove_zero(expr, "%s for every variation tuple on this path (e.g. %r) [%s]" % (what, t, tag0))
+            E.decide(log, v, key, replay=(MOD, "replay_grid", {"nf": nf, "order": list(order), "fh": fh, "variation": list(t), "what": key}), sampler=_sampler)
+        E.twin(log)
+        if stub is not None:
+            for s_ in sorted(stub.instances):
+                log.assume("axiom instance: " + s_)
+
+    def run_singlet():
+        Ns, zs, stub = setup()
+        blk, sd, ph = SR(QZERO), SR(QZERO), SR(QZERO)
+        emb = {(0, 0): (1, 1), (0, 2): (1, 0), (2, 0): (0, 1), (2, 2): (0, 0)}
+        for N in Ns:
+            gs = ad.gamma_singlet_qed(order, N, nf, zs, fh)
+            s_ = ad.gamma_singlet((4, 0), N, nf, zs, fh)
+            nsp = ad.gamma_ns((4, 0), 10101, N, nf, zs, fh)
+            for k in range(1, 5):
+                for i in range(4):
+                    for j in range(4):
+                        if (i, j) in emb:
+                            a, b = emb[(i, j)]
+                            blk = blk + sq(gs[k, 0][i, j] - s_[k - 1][a, b])
+                        elif (i, j) == (3, 3):
+                            sd = sd + sq(gs[k, 0][3, 3] - nsp[k - 1])
+                        else:
+                            ph = ph + sq(gs[k, 0][i, j])
+        finish(zs, [("singlet_qed:block", "singlet_qed[k,0] block == gamma_singlet[k-1], k=1..4", blk),
+                    ("singlet_qed:sdelta", "singlet_qed[k,0][3,3] (Sdelta) == gamma_ns+[k-1], k=1..4", sd),
+                    ("singlet_qed:photon", "photon row/column and off-block entries of singlet_qed[k,0] vanish", ph)], stub)
+
+    def run_valence():
+        Ns, zs, stub = setup()
+        v, vd, off = SR(QZERO), SR(QZERO), SR(QZERO)
+        for N in Ns:
+            gv = ad.gamma_valence_qed(order, N, nf, zs, fh)
+            nsv = ad.gamma_ns((4, 0), 10200, N, nf, zs, fh)
+            nsm = ad.gamma_ns((4, 0), 10201, N, nf, zs, fh)
+            for k in range(1, 5):
+                v = v + sq(gv[k, 0][0, 0] - nsv[k - 1])
+                vd = vd + sq(gv[k, 0][1, 1] - nsm[k - 1])
+                off = off + sq(gv[k, 0][0, 1]) + sq(gv[k, 0][1, 0])
+        finish(zs, [("valence_qed:v", "valence_qed[k,0][0,0] == gamma_ns,v[k-1], k=1..4", v),
+                    ("valence_qed:vdelta", "valence_qed[k,0][1,1] (Vdelta) == gamma_ns-[k-1], k=1..4", vd),
+                    ("valence_qed:offdiag", "valence_qed[k,0] off-diagonal vanishes", off)], stub)
+
+    def run_ns(modes, ref_mode, name):
+        def run():
+            Ns, zs, stub = setup()
+            tot = SR(QZERO)
+            for N in Ns:
+                ref = ad.gamma_ns((4, 0), ref_mode, N, nf, zs, fh)
+                for m in modes:
+                    g = ad.gamma_ns_qed(order, m, N, nf, zs, fh)
+                    for k in range(1, 5):
+                        tot = tot + sq(g[k, 0] - ref[k - 1])
+            finish(zs, [("ns_qed:tower", "gamma_ns_qed(%s)[k,0] == gamma_ns%s[k-1], k=1..4" % ("/".join(map(str, modes)), name), tot)], stub)
+        return run
+
+    runs = {"singlet": run_singlet, "valence": run_valence, "ns_plus": run_ns((10102, 10103), 10101, "+"), "ns_minus": run_ns((10202, 10203), 10201, "-")}
+    if not fh:
+        # the eko approximations refuse nothing, but gamma_ns,v has a pole-free real axis only for N > 1: fine for our N
+        pass
+    for b in blocks:
+        _r, pm = explore(runs[b], max_paths=4096)
+        log.path_stats(pm)
 
 
 def _validate(log, nf, order, fh, variation):
@@ -261,11 +417,14 @@ def main():
                   "nf in {3,4,5,6} enumerated ({3,4,5} with the FHMRUVV N3LO variant, which refuses nf=6), orders (k,2) for k = 1..4 "
                   "(all lower QED orders are sub-grids), both N3LO variants, N3LO variation tuples: %r" % (_variations(tier),),
                   "quick tier: grids (3,2) for nf 3..6, (2,2) for nf=4, (4,2) FHMRUVV for nf 3,4,5 and (4,2) eko approximations for nf=4 only; thorough: every order (i,j), i<=4, j<=2, nf 3..6"]
-    chk.bounds.append("FHMRUVV N3LO variation tuples with slot 3 (qq) == slot 4 (nsp) only (the eko approximations have no nsp variation): the FHMRUVV singlet uses the qq slot for both the non-singlet-plus and the "
-                      "pure-singlet part of gamma_qq by design, and the QED grid's Sdelta entry follows the singlet")
+    chk.bounds.append("n3lo_ad_variation = (gg, gq, qg, qq, nsp, nsm, nsv) is part of the input space: FHMRUVV: all 7 slots symbolic non-negative integers at once "
+                      "(the code's `variation == k` comparisons fork the path: every behaviour class 1 / 2 / other of every slot a block reads), per block "
+                      "(singlet block + Sdelta + photon; V/Vdelta; ns+ up/down; ns- up/down), nf in {3,4,5}, with N at the complex points %r (float code) and, "
+                      "for the valence and non-singlet blocks (thorough: also the singlet block at nf=4), with N a real symbol; in addition N symbolic for the separating family "
+                      "of concrete tuples %r.  eko approximations (only gg, gq, qg, qq vary; the entries are per-slot functions): each of the four slots symbolic over its whole "
+                      "range with the other three fixed at (0,0,0,0) and at (7,3,11,2)" % (NUMERIC_N, SEP))
     chk.out_of_claim = ["numerical values of the entries (C25/C20); polarised and time-like sectors have no QED grids",
-                        "N3LO variation tuples whose qq slot (3) differs from the nsp slot (4): there the FHMRUVV grid's Sdelta entry is gamma_ns,+ at the qq variation, "
-                        "not at the nsp variation used by gamma_ns (by design of the singlet variation; coordinator decision)"]
+                        "eko N3LO approximations: simultaneous variation of two or more of the four singlet slots beyond the listed base tuples"]
     chk.stubs = ["cern_polygamma -> uninterpreted real atoms psi_k(z) interned by argument, with recurrence psi_k(z+1) = psi_k(z) + (-1)^k k!/z^(k+1) "
                  "and psi_k(1) values (harness/ekoresym.py:PsiStub)"]
     chk.assumptions = ["float literals are read as the simplest rational that rounds to them"]
@@ -287,6 +446,21 @@ def main():
                 vs = vs[:1] if (nf != 4 or not fh) else vs
             for i, v in enumerate(vs):
                 chk.case("grid.nf%d.o42.%s.v%d" % (nf, "fhmruvv" if fh else "as4", i), case_grid, nf=nf, order=(4, 2), fh=fh, variation=v)
+    # --- variation tuple symbolic ---
+    ALL = ("sym",) * 7
+    for nf in (3, 4, 5):
+        if tier == "quick" and nf != 4:
+            chk.case("slots.fhmruvv.nf%d.numeric" % nf, case_slots, nf=nf, fh=True, spec=ALL, numeric=True, blocks=("singlet",))
+            continue
+        chk.case("slots.fhmruvv.nf%d.numeric" % nf, case_slots, nf=nf, fh=True, spec=ALL, numeric=True)
+        chk.case("slots.fhmruvv.nf%d.symN" % nf, case_slots, nf=nf, fh=True, spec=ALL, numeric=False, blocks=("valence", "ns_plus", "ns_minus"))
+    if tier == "thorough":
+        chk.case("slots.fhmruvv.nf4.symN.singlet", case_slots, nf=4, fh=True, spec=ALL, numeric=False, blocks=("singlet",))
+    for nf in ((4,) if tier == "quick" else (3, 4, 5, 6)):
+        for bi, base in enumerate(((0, 0, 0, 0), (7, 3, 11, 2))):
+            for sl in range(4):
+                spec = tuple("sym" if i == sl else (base[i] if i < 4 else 0) for i in range(7))
+                chk.case("slots.as4.nf%d.b%d.%s" % (nf, bi, SLOTS[sl]), case_slots, nf=nf, fh=False, spec=spec, numeric=True, blocks=("singlet",))
     E.load()
     return chk.run(workers=8)
 
